@@ -23,9 +23,7 @@ Proof.
     destruct (ps_prev s); [discriminate|]. destruct (ps_stack s); [discriminate|]. inversion H. reflexivity. }
   destruct (zmem ty [1; 4; 9; 10; 12]) eqn:Eb.
   { assert (Hm : zmem ty [2; 3; 1; 4; 9; 10; 12; 6] = true).
-    { cbn [zmem existsb] in *. rewrite Z.eqb_sym in E2. rewrite Z.eqb_sym in E3. rewrite E2, E3. cbn [orb]. apply orb_true_iff in Eb.
-      repeat (apply orb_true_iff in Eb; destruct Eb as [Eb | Eb]; [rewrite Eb; rewrite ?orb_true_r; reflexivity|]); try discriminate.
-      destruct Eb as [Eb | Eb]; [rewrite Eb; rewrite ?orb_true_r; reflexivity | discriminate]. }
+    { clear - Eb. cbn [zmem existsb] in *; destruct (ty =? 2), (ty =? 3), (ty =? 1), (ty =? 4), (ty =? 9), (ty =? 10), (ty =? 12), (ty =? 6); cbn in *; try reflexivity; try discriminate. }
     rewrite Hm, app_nil_r. destruct (ps_prev s); [discriminate|]. destruct (ps_atoms s) eqn:Ea; [discriminate|]. inversion H. cbn. exact Ea. }
   destruct (ty =? 6) eqn:E6.
   { assert (Hm : zmem ty [2; 3; 1; 4; 9; 10; 12; 6] = true).
@@ -37,8 +35,7 @@ Proof.
       destruct (od_set (ps_order s) a ind (Some (ps_last s))); [|discriminate]. inversion H. reflexivity.
     - inversion H. reflexivity. }
   assert (Hm : zmem ty [2; 3; 1; 4; 9; 10; 12; 6] = false).
-  { cbn [zmem existsb] in *. rewrite Z.eqb_sym in E2. rewrite Z.eqb_sym in E3. rewrite Z.eqb_sym in E6. rewrite E2, E3, E6. cbn [orb].
-    rewrite orb_false_r. rewrite orb_false_r in Eb. exact Eb. }
+  { clear - E2 E3 Eb E6. cbn [zmem existsb] in *; destruct (ty =? 2), (ty =? 3), (ty =? 1), (ty =? 4), (ty =? 9), (ty =? 10), (ty =? 12), (ty =? 6); cbn in *; try reflexivity; try discriminate. }
   rewrite Hm.
   match type of H with (match ?X with _ => _ end) = _ => destruct X as [[[bonds order] sb]|]; [|discriminate] end.
   destruct v; try discriminate. inversion H. reflexivity.
@@ -72,7 +69,7 @@ Section Atoms.
   Proof.
     destruct b as [[ty v]|]; [|reflexivity]. cbn [bond_ok opt_bond flat_map atom_part]. intros H.
     assert (Hm : zmem ty [2; 3; 1; 4; 9; 10; 12; 6] = true).
-    { cbn [zmem existsb] in *. repeat (apply orb_true_iff in H; destruct H as [H | H]; [rewrite H; rewrite ?orb_true_r; reflexivity|]). discriminate. }
+    { clear - H. cbn [zmem existsb] in *; destruct (ty =? 2), (ty =? 3), (ty =? 1), (ty =? 4), (ty =? 9), (ty =? 10), (ty =? 12), (ty =? 6); cbn in *; try reflexivity; try discriminate. }
     rewrite Hm. reflexivity.
   Qed.
 
@@ -84,14 +81,15 @@ Section Atoms.
 
   Lemma ctoks_atoms smi : flat_map atom_part (ctoks aty atk rings bnd smi) = map (fun n => strip_stereo (atk n)) (atoms_of smi).
   Proof.
-    induction smi as [|t smi IH]; [reflexivity|]. unfold ctoks in *. cbn [flat_map]. rewrite flat_map_app, IH.
-    destruct t as [n| | |p c]; cbn [ctok atoms_of map flat_map].
-    - rewrite flat_map_app, (ring_part _ (Hrings n)). cbn [atom_part app].
+    induction smi as [|t smi IH]; [reflexivity|].
+    change (ctoks aty atk rings bnd (t :: smi)) with (ctok aty atk rings bnd t ++ ctoks aty atk rings bnd smi).
+    rewrite flat_map_app, IH.
+    destruct t as [n| | |p c]; cbn [ctok atoms_of map].
+    - cbn [flat_map]. rewrite (ring_part _ (Hrings n)). cbn [atom_part app].
       assert (Hm : zmem (aty n) [2; 3; 1; 4; 9; 10; 12; 6] = false).
-      { specialize (Haty n). cbn [zmem existsb] in *. apply orb_true_iff in Haty. destruct Haty as [H | H].
-        - apply Z.eqb_eq in H. rewrite H. reflexivity.
-        - rewrite orb_false_r in H. apply Z.eqb_eq in H. rewrite H. reflexivity. }
-      rewrite Hm. reflexivity.
+      { pose proof (Haty n) as H. revert H. generalize (aty n). intros ty H. clear - H. cbn [zmem existsb] in *.
+        destruct (ty =? 0) eqn:E0; [apply Z.eqb_eq in E0; subst; reflexivity|]. destruct (ty =? 8) eqn:E8; [apply Z.eqb_eq in E8; subst; reflexivity | discriminate]. }
+      rewrite Hm. rewrite app_nil_r. reflexivity.
     - reflexivity.
     - reflexivity.
     - rewrite (bond_ok_part _ (Hbnd p c)). reflexivity.
